@@ -114,7 +114,7 @@ def structures(n):
     return [(p, list(s)) for p in pats for s in itertools.product([0, 1], repeat=n)]
 
 
-def make_ineq(I, sm, tag, n, op, coef_bound=None, struct=None, conc=None):
+def make_ineq(I, sm, tag, n, op, coef_bound=None, struct=None, conc=None, voff=0):
     """build sum c_i*lit_i (op) b through the real API; returns (Ineq, semantics(bits)->bool expr, names)"""
     e = PB.Expr()
     terms = []
@@ -124,6 +124,7 @@ def make_ineq(I, sm, tag, n, op, coef_bound=None, struct=None, conc=None):
             c = conc[0] + I.choice(f"{tag}.k{i}", conc[1] - conc[0] + 1)
         else:
             c = I.int(f"{tag}.c{i}") if coef_bound is None else I.int(f"{tag}.c{i}", -coef_bound, coef_bound)
+        vi = vi + voff
         lit = sm.newvar(VARS[vi])
         if pol:
             lit = -lit
@@ -195,6 +196,9 @@ def cases(tier):
         for decomp in (False, True):
             for st in (([0, 1], [0, 1]), ([0, 1], [1, 0])):
                 cs.append(dict(kind='ineq', op='>=', n=2, decomp=decomp, hist=2, same_manager=same, struct=st, conc=[1, 4, 1, 8]))
+            # the probe over the LATER variables of an earlier constraint (its diagram may be a sub-diagram of the earlier one)
+            cs.append(dict(kind='ineq', op='>=', n=2, decomp=decomp, hist=2, same_manager=same, struct=([0, 1], [0, 0]), conc=[1, 4, 1, 8], voff=1,
+                           hist_from=0))
     ms = range(1, 7) if tier == 'quick' else range(1, 10)
     ks = (3, 4) if tier == 'quick' else (3, 4, 5)
     for m in ms:
@@ -225,7 +229,7 @@ def body(I, case):
         hist_vars = set()
         for h in range(case['hist']):
             hm = sm if case.get('same_manager') else SM.SATManager()
-            idx = I.choice(f'h{h}', len(EARLIER)) if not case.get('conc') else (2 + h) % len(EARLIER)
+            idx = I.choice(f'h{h}', len(EARLIER)) if not case.get('conc') else (case.get('hist_from', 2) + 2 * h) % len(EARLIER)
             EARLIER[idx](hm)
             if case.get('same_manager'):
                 sems.append(EARLIER_SEM[idx])
@@ -234,7 +238,7 @@ def body(I, case):
         bound = 7 if case['decomp'] else None
         before = len(sm.clauses)
         try:
-            q, sem, used = make_ineq(I, sm, 'q', case['n'], case['op'], bound, case['struct'], conc=case.get('conc'))
+            q, sem, used = make_ineq(I, sm, 'q', case['n'], case['op'], bound, case['struct'], conc=case.get('conc'), voff=case.get('voff', 0))
         except (TypeError,) as e:
             I.reached('refused-at-construction')
             return
